@@ -9,33 +9,48 @@ Open Scope N_scope.
 Definition str (s : string) : list N := map N_of_ascii (list_ascii_of_string s).
 
 (* ---------- the regex produced for a pattern decides the documented syntax ---------- *)
-(* For every pattern and every key without a line feed: `Regex::new(glob_to_regex(p))` succeeds
-   (the text stays inside the modelled fragment) and `is_match(key)` is exactly the reference
-   matcher written from the documentation. *)
+(* For every pattern and EVERY key: `Regex::new(glob_to_regex(p))` succeeds (the text stays
+   inside the modelled fragment) and `is_match(key)` is exactly the reference matcher written
+   from the documentation. *)
 Theorem c19_glob_regex_correct :
-  forall p s : list N, no_nl s = true ->
-    regex_is_match (glob_to_regex p) s = Some (glob_match p s).
+  forall p s : list N, regex_is_match (glob_to_regex p) s = Some (glob_match p s).
 Proof. exact glob_regex_correct. Qed.
 
 Example c19_glob_regex_correct_ex :
-  no_nl (str "logs/a+b.jsonl") = true /\
-  glob_to_regex (str "logs/*+?.jsonl") = str "^logs/[^/]*\+.\.jsonl$" /\
+  glob_to_regex (str "logs/*+?.jsonl") = str "(?s)^logs/[^/]*\+.\.jsonl$" /\
   regex_is_match (glob_to_regex (str "logs/*+?.jsonl")) (str "logs/a+b.jsonl") = Some true /\
   glob_match (str "logs/*+?.jsonl") (str "logs/a+b.jsonl") = true /\
   glob_match (str "logs/*+?.jsonl") (str "logs/x/a+b.jsonl") = false /\
   glob_match (str "logs/**+?.jsonl") (str "logs/x/a+b.jsonl") = true /\
-  glob_match (str "logs/*+?.jsonl") (str "logs/aab.jsonl") = false.
+  glob_match (str "logs/*+?.jsonl") (str "logs/aab.jsonl") = false /\
+  regex_is_match (glob_to_regex (str "a?b")) [97; 10; 98] = Some true /\
+  regex_is_match (glob_to_regex (str "**")) [10; 47; 10] = Some true.
 Proof. repeat split; vm_compute; reflexivity. Qed.
 
-(* the side condition cannot be dropped: the regex crate's `.` does not match a line feed, so
-   `?` and `**` (but not `*`) refuse a key character U+000A  -- known finding, open *)
-Theorem c19_glob_regex_newline_refuted :
+(* The regression repaired by the fix dae5143. The OLD translation (the same text without the
+   leading `(?s)`) was correct only on keys without a line feed, and really failed on one:
+   the regex crate's `.` does not match U+000A unless the flag `s` is set, so `?` and `**`
+   (but not `*`) refused a line feed inside a key. *)
+Theorem c19_glob_regex_old_correct_without_lf :
+  forall p s : list N, no_nl s = true ->
+    regex_is_match (glob_to_regex_old p) s = Some (glob_match p s).
+Proof. exact glob_regex_old_correct. Qed.
+
+Theorem c19_glob_regex_old_newline_refuted :
   exists p s : list N, no_nl s = false /\
-    regex_is_match (glob_to_regex p) s = Some false /\ glob_match p s = true.
+    regex_is_match (glob_to_regex_old p) s = Some false /\ glob_match p s = true /\
+    regex_is_match (glob_to_regex p) s = Some true.
 Proof.
-  exists [c_quest], [c_nl]. destruct glob_regex_newline_refuted as (H1 & H2 & _).
-  split; [reflexivity|]. split; assumption.
+  exists [c_quest], [c_nl]. destruct glob_regex_old_newline_refuted as (H1 & H2 & _ & _ & _ & H6 & _).
+  split; [reflexivity|]. repeat split; assumption.
 Qed.
+
+Example c19_glob_regex_old_correct_without_lf_ex :
+  no_nl (str "logs/a+b.jsonl") = true /\
+  glob_to_regex_old (str "logs/*+?.jsonl") = str "^logs/[^/]*\+.\.jsonl$" /\
+  regex_is_match (glob_to_regex_old (str "logs/*+?.jsonl")) (str "logs/a+b.jsonl") = Some true /\
+  regex_is_match (glob_to_regex_old (str "**")) [10] = Some false.
+Proof. repeat split; vm_compute; reflexivity. Qed.
 
 (* the reference matcher IS the documented syntax: a key matches iff it is a concatenation of
    one piece per pattern token, where a character stands for itself, `?` for any one character
@@ -52,17 +67,21 @@ Proof.
   apply (proj1 (c19_glob_match_is_documented_syntax _ _)). vm_compute. reflexivity.
 Qed.
 
-(* the regex matcher of the model implements the usual language semantics of the fragment *)
+(* the regex matcher of the model implements the usual language semantics of the fragment,
+   for either value of the flag `s` *)
 Theorem c19_regex_matcher_is_language :
-  forall (r : regex) (s : list N), rmatch r s = true <-> rmatches r s.
+  forall (r : regex) (s : list N), rmatch r s = true <-> rmatches (fst r) (snd r) s.
 Proof. exact rmatch_spec. Qed.
 
 Example c19_regex_matcher_is_language_ex :
-  parse (str "^a[^/]*\..$") = Some [ALit 97; ASegStar; ALit 46; AAny] /\
-  rmatches [ALit 97; ASegStar; ALit 46; AAny] (str "abc.d").
+  parse (str "^a[^/]*\..$") = Some (false, [ALit 97; ASegStar; ALit 46; AAny]) /\
+  parse (str "(?s)^a.*$") = Some (true, [ALit 97; AAnyStar]) /\
+  rmatches false [ALit 97; ASegStar; ALit 46; AAny] (str "abc.d") /\
+  rmatches true [ALit 97; AAnyStar] [97; 10].
 Proof.
-  split; [vm_compute; reflexivity|].
-  apply (proj1 (c19_regex_matcher_is_language _ _)). vm_compute. reflexivity.
+  split; [vm_compute; reflexivity|]. split; [vm_compute; reflexivity|]. split.
+  - apply (proj1 (c19_regex_matcher_is_language (false, _) _)). vm_compute. reflexivity.
+  - apply (proj1 (c19_regex_matcher_is_language (true, _) _)). vm_compute. reflexivity.
 Qed.
 
 (* ---------- listing by prefix never hides a match ---------- *)
@@ -89,25 +108,22 @@ Proof. repeat split; vm_compute; reflexivity. Qed.
 (* ---------- expansion = the sorted list of exactly the matching keys ---------- *)
 Theorem c19_expand_spec :
   forall (keys : list (list N)) (p : list N),
-    Forall (fun k => no_nl k = true) keys ->
     expand (Some keys) p = Ok (expand_ref keys p) /\
     StronglySorted key_le (expand_ref keys p) /\
     (forall k, In k (expand_ref keys p) <-> In k keys /\ glob_match p k = true) /\
     (NoDup keys -> NoDup (expand_ref keys p)).
 Proof.
-  intros keys p H. split; [exact (expand_is_ref keys p H)|exact (expand_ref_spec keys p)].
+  intros keys p. split; [exact (expand_is_ref keys p)|exact (expand_ref_spec keys p)].
 Qed.
 
 Example c19_expand_spec_ex :
   let keys := [str "logs/b.jsonl"; str "data/x.csv"; str "logs/sub/c.jsonl"; str "logs/a.jsonl"] in
-  Forall (fun k => no_nl k = true) keys /\
   expand (Some keys) (str "logs/*.jsonl") = Ok [str "logs/a.jsonl"; str "logs/b.jsonl"] /\
   expand (Some keys) (str "logs/**") =
     Ok [str "logs/a.jsonl"; str "logs/b.jsonl"; str "logs/sub/c.jsonl"] /\
-  expand_required (Some keys) (str "nomatch") = Err NotFound.
-Proof.
-  cbv zeta. split; [repeat constructor|]. repeat split; vm_compute; reflexivity.
-Qed.
+  expand_required (Some keys) (str "nomatch") = Err NotFound /\
+  expand (Some [[10]; [47]; [97]; [97; 10]]) (str "?") = Ok [[10]; [47]; [97]].
+Proof. cbv zeta. repeat split; vm_compute; reflexivity. Qed.
 
 (* every pattern is a valid glob: the only error is the store's (bucket missing) *)
 Theorem c19_expand_never_invalid :
@@ -203,7 +219,6 @@ Theorem c19_read_glob_concat :
   forall (R : Type) (de : list N -> option R) (dec : codec -> list N -> option (list N))
          (st : store) (p : list N) (f : list N -> list R),
     st <> [] ->
-    Forall (fun k => no_nl k = true) (map fst st) ->
     (forall k, In k (map fst st) -> glob_match p k = true -> cloud_read de dec st k = Ok (f k)) ->
     read_glob de dec st p = Ok (flat_map f (expand_ref (map fst st) p)).
 Proof. exact read_glob_concat. Qed.
